@@ -54,7 +54,8 @@ pub fn strategy() -> impl Strategy<Value = Case> {
         gen::raw_config(10, 3, 1),
         0u8..3,
         vec(any::<u16>(), 1..=3),
-        1usize..=4,
+        // mostly 1-4 commands; sometimes 8-12 (more than any small internal batch of planning work)
+        prop_oneof![5 => 1usize..=4, 1 => 8usize..=12],
         any::<u16>(),
         0u8..4,
         vec(0u64..80, 40),
@@ -437,7 +438,7 @@ pub fn check(case: &Case, w: usize) -> CheckResult {
 }
 
 pub fn run(ctx: &mut Ctx) {
-    ctx.rule = "acyclic configuration (<=10 targets; plus a size-boundary mode with one layer of 12-70 (thorough: 130) independent targets, biased to 28-40 and 60-70, below 1-3 dependents; plus a sparse-change mode: 3-5 layers on an unchanged spine, non-spine targets using targets two or more layers down, only non-spine targets changed) x selection mode (all / changed / -t --deps) x 1-4 commands split over -s sequences and -c (one of them may be listed a second time) \
+    ctx.rule = "acyclic configuration (<=10 targets; plus a size-boundary mode with one layer of 12-70 (thorough: 130) independent targets, biased to 28-40 and 60-70, below 1-3 dependents; plus a sparse-change mode: 3-5 layers on an unchanged spine, non-spine targets using targets two or more layers down, only non-spine targets changed) x selection mode (all / changed / -t --deps) x 1-4 (sometimes 8-12) commands split over -s sequences and -c (one of them may be listed a second time) \
 x run-time assignment (zero / random / dependencies slower than dependents / earlier command slower); all helpers exit 0. oracle over helper traces \
 (CLOCK_MONOTONIC): start(T,c) >= end(U,c) for every dep(T,U) in the run, min start(c[i+1]) >= max end(c[i]), result command order == documented order. \
 non-trivial = a dependency pair whose dependency sleeps longer than its dependent, or two consecutive commands with the earlier one slower; distinct by SHA-256"
